@@ -41,8 +41,10 @@ def producers_nonnull(chk, P, rule="R-NULLFIELD"):
 
 
 def cancel_symmetry(chk, P, rule="R-REVERSE"):
-    """hwloc_topology_diff_apply: the roll-back loop re-applies with exactly the REVERSE bit flipped, walks from the first
-    entry to the failing one (exclusive) and returns -nr with errno EINVAL"""
+    """hwloc_topology_diff_apply: the roll-back re-applies with exactly the REVERSE bit flipped, walks from the first entry
+    to the failing one (exclusive) and the failure exit returns minus the 1-based index of the failing entry.
+    Decided by evaluation (named temporaries resolved, any loop form), not by the shape of the statements."""
+    import extent
     f = P.need_func("hwloc_topology_diff_apply", "diff.c")
     u = f.unit
     R = u.enum_consts.get("HWLOC_TOPOLOGY_DIFF_APPLY_REVERSE")
@@ -52,59 +54,91 @@ def cancel_symmetry(chk, P, rule="R-REVERSE"):
     calls = list(f.calls("hwloc_apply_diff_one"))
     if not chk.need(len(calls) == 2, "R-REVERSE: expected a forward and a roll-back call of hwloc_apply_diff_one, found %d" % len(calls)):
         return
-    calls.sort(key=lambda c: c.get("l", 0))
+    calls.sort(key=lambda c: (c.get("l", 0), c["id"]))
     fwd, back = calls
+    defs = extent.single_defs(f)
+    def resolve(e):
+        e = strip(e)
+        for _ in range(3):
+            if e["k"] == "Ref" and e["n"] in defs:
+                e = strip(defs[e["n"]])
+        return e
     res = {}
     for name, c in (("forward", fwd), ("rollback", back)):
         for fl in (0, R):
-            res[(name, fl)] = peval.Evaluator(f, {"flags": fl}).ev(args(c)[2])
+            res[(name, fl)] = peval.Evaluator(f, {"flags": fl}).ev(resolve(args(c)[2]))
     ok = all(res[("forward", fl)] == fl for fl in (0, R)) and all(res[("rollback", fl)] == (fl ^ R) for fl in (0, R))
     chk.inst(rule, f, "rollback-flags", ok, "forward call gets flags, roll-back call gets flags with exactly the REVERSE bit flipped (evaluated for flags in {0, REVERSE}: %s)" % sorted((k, v) for k, v in res.items()), loc=f.loc(back))
-    # roll-back loop bounds: while (tmpdiff != failing entry)
-    loops = [n for n in f.walk() if n["k"] == "While"]
+    # roll-back range: the roll-back call sits in a loop (while/for/do) that runs while its cursor differs from another entry pointer
     okl = False
-    for w in loops:
-        c = strip(w["c"][0])
-        if c["k"] == "Binary" and c["op"] == "!=" and any(x["id"] == back["id"] for x in subnodes(w)):
-            okl = True
-    chk.inst(rule, f, "rollback-range", okl, "roll-back loop runs while the cursor differs from the failing entry (exclusive upper end)")
-    rets = [r for r in returns(f)]
-    neg = [r for r in rets if r.get("c") and strip(r["c"][0])["k"] == "Unary" and strip(r["c"][0])["op"] == "-" and lv(strip(r["c"][0])["c"][0]) is not None]
-    chk.inst(rule, f, "returns-minus-index", len(neg) == 1, "the failure exit returns -<counter> (found %d such returns)" % len(neg))
-    if neg:
-        cnt = lv(strip(neg[0]["c"][0])["c"][0])
-        # counter incremented before each forward attempt
-        m = must.Must(f).run()
-        b, i = f.elem_block[fwd["id"]]
-        inc_before = False
-        for e in f.blocks[b]["e"][:i]:
-            a = assigned(f.nodes[e])
-            if a and lv(a[0]) == cnt and a[1] in ("++", "+="):
-                inc_before = True
-        chk.inst(rule, f, "index-counts-attempts", inc_before, "%s is incremented before each forward hwloc_apply_diff_one attempt" % cnt)
+    p = f.par(back)
+    while p is not None:
+        if p["k"] in ("While", "For", "Do"):
+            conds = [p["c"][0]] if p["k"] == "While" else ([p["c"][1]] if p["k"] == "For" else [p["c"][-1]])
+            for c in conds:
+                c = strip(c) if c is not None else None
+                if c is not None and c["k"] == "Binary" and c["op"] == "!=" and lv(c["c"][0]) and lv(c["c"][1]) and lv(c["c"][0]) == lv(args(back)[1]):
+                    okl = True
+            break
+        p = f.par(p)
+    chk.inst(rule, f, "rollback-range", okl, "the roll-back call runs in a loop while its cursor differs from the failing entry (exclusive upper end)", loc=f.loc(back))
+    # failure exit: with every hwloc_apply_diff_one forced to fail, the first entry fails: the function returns exactly -1
+    try:
+        out = peval.PathEval(P, f, {"topology->state": u.enum_consts.get("HWLOC_TOPOLOGY_STATE_IS_LOADED", 8), "topology->adopted_shmem_addr": 0, "flags": 0, "diff": 1},
+                             is_effect=lambda *a: False, through_effects=True, call_values={"hwloc_apply_diff_one": -1}, exact_counters=True, maxstates=20000).run()
+        vals = sorted(set(t[1] for t in out.terminals if t[0] == "return"), key=str)
+        chk.inst(rule, f, "returns-minus-index", vals == [-1], "when the first entry fails to apply the function returns -1, minus its 1-based index (explored with every hwloc_apply_diff_one forced to fail: returns %s)" % vals)
+    except AnalysisBroken as e:
+        chk.broke("%s: hwloc_topology_diff_apply not evaluable (%s)" % (rule, e))
 
 
 def apply_arms_symmetric(chk, P, rule="R-REVERSE"):
-    """hwloc_apply_diff_one: in each arm old/new are selected by opposite senses of `reverse`"""
+    """hwloc_apply_diff_one: every read of an entry's oldvalue/newvalue depends on `reverse` (it is an arm of `reverse ? a : b` or
+    sits under a test of reverse): a raw read is right for one direction only.  Where the ?: idiom is used, old* and new* select
+    opposite arms."""
     f = P.need_func("hwloc_apply_diff_one", "diff.c")
+    m = must.Must(f).run()
+    n = 0
+    bad = []
+    for x in f.walk():
+        if x["k"] == "Member" and x["f"] in ("oldvalue", "newvalue"):
+            n += 1
+            dep = False
+            p, child = f.par(x), x
+            while p is not None:
+                if p["k"] == "Cond" and p["c"][0] is not child and "reverse" in refs(p["c"][0]):
+                    dep = True
+                    break
+                child = p
+                p = f.par(p)
+            if not dep:
+                y = x
+                while y is not None and y["id"] not in m.before:
+                    y = f.par(y)
+                st = m.before.get(y["id"], frozenset()) if y is not None else frozenset()
+                dep = any(fct[0] in ("T", "F", "R") and "reverse" in fct[-1] for fct in st)
+            if not dep:
+                bad.append(f.loc(x))
+    chk.inst(rule, f, "reads-depend-on-reverse", not bad and n >= 4, "%d reads of oldvalue/newvalue, each selected by `reverse`%s" % (n, "" if not bad else " -- raw reads at %s" % bad[:4]))
     pairs = {}
-    for n in f.walk():
-        if n["k"] == "Cond" and lv(strip(n["c"][0])) == "reverse":
-            t, e = strip(n["c"][1]), strip(n["c"][2])
+    for n2 in f.walk():
+        if n2["k"] == "Cond" and lv(strip(n2["c"][0])) == "reverse":
+            t, e = strip(n2["c"][1]), strip(n2["c"][2])
             if t["k"] == "Member" and e["k"] == "Member":
-                par = f.par(n)
+                par = f.par(n2)
                 tgt = None
                 while par is not None and tgt is None:
                     if par["k"] == "Var":
                         tgt = par["n"]
-                    a = assigned(par)
-                    if a:
-                        tgt = lv(a[0])
+                    a2 = assigned(par)
+                    if a2:
+                        tgt = lv(a2[0])
                     par = f.par(par)
-                pairs.setdefault(n.get("l"), []).append((tgt, t["f"], e["f"]))
+                pairs.setdefault(n2.get("l"), []).append((tgt, t["f"], e["f"]))
     sel = [x for v in pairs.values() for x in v]
-    olds = [x for x in sel if x[0] and "old" in x[0]]
-    news = [x for x in sel if x[0] and "new" in x[0]]
-    ok = len(olds) >= 2 and len(olds) == len(news)
-    ok = ok and all(x[1] == "newvalue" and x[2] == "oldvalue" for x in olds) and all(x[1] == "oldvalue" and x[2] == "newvalue" for x in news)
-    chk.inst(rule, f, "arms-select-opposite", ok, "%d arms: `old* = reverse ? newvalue : oldvalue` and `new* = reverse ? oldvalue : newvalue` (%s)" % (len(olds), sel))
+    if len(sel) >= 2:
+        olds = [x for x in sel if x[1] == "newvalue" and x[2] == "oldvalue"]
+        news = [x for x in sel if x[1] == "oldvalue" and x[2] == "newvalue"]
+        ok = len(olds) == len(news) and len(olds) + len(news) == len(sel)
+        chk.inst(rule, f, "arms-select-opposite", ok, "%d selections by `reverse ? : `: as many `reverse ? newvalue : oldvalue` (%d) as `reverse ? oldvalue : newvalue` (%d)" % (len(sel), len(olds), len(news)))
+
